@@ -11,7 +11,7 @@ for d in sorted((V / "seeded").iterdir()):
     conf = m.get("confirmed", {})
     det = r.get("detected_by", [])
     conc = r.get("detected_with_concrete_input_by", [])
-    rows.append(f"| {m['id']} | {m['breaks'][:150]} | {m['needs_to_manifest'][:140]} | "
+    rows.append(f"| {m['id']} | {m['breaks'][:150].replace('|', '∣')} | {m['needs_to_manifest'][:140].replace('|', '∣')} | "
                 f"{'yes' if conf.get('ok') else ('no: ' + str(conf.get('tests_broken_by_change', ''))[:60] if conf else 'pending')} | "
                 f"{', '.join(det) if det else '**missed**'} | {', '.join(conc) if conc else '—'} |")
 print("| id | what the change breaks | what it needs to manifest | confirmed (demo fails with / passes without, relevant tests pass) | caught by | with a concrete failing input by |")
